@@ -10,7 +10,8 @@ is property C03.
 
 The full statement is false for the code as it is (`C17_full_false` and one witness per recorded
 deviation); `C17_partial` proves it for every document and every target set that avoids exactly
-the named constructs (`deviates`), and `C17_general` for any setting of the repairable deviations
+the named constructs (`deviates`: from-the-end indexes/union members, slices, filters; trailing
+descents are repaired in /repo and covered), and `C17_general` for any setting of the repairable deviations
 (`Dev`), so that the same theorem covers the patched matcher. -/
 namespace OjgVerif.C17
 open OjgVerif OjgVerif.Match
@@ -36,11 +37,6 @@ def isSlice : Frag → Bool
   | .slice _ _ _ => true
   | _ => false
 
-/-- the last fragment is a descent -/
-def endsInDescent : Target → Bool
-  | [] => false
-  | f :: fs => if fs.isEmpty then isDescent f else endsInDescent fs
-
 def usesFromEnd (t : Target) : Bool := t.any fragFromEnd
 def usesSlice (t : Target) : Bool := t.any isSlice
 def usesFilter (t : Target) : Bool := t.any isFilter'
@@ -48,10 +44,12 @@ def usesFilter (t : Target) : Bool := t.any isFilter'
     | .filter _ => true
     | _ => false
 
-/-- the target uses one of the constructs with a recorded deviation (known_findings.json:
-C17-from-end-index, C17-slice-bounds, C17-filter-first-only, C17-trailing-descent) -/
+/-- the target uses one of the constructs with a recorded deviation, ANYWHERE in it
+(known_findings.json: C17-from-end-index, C17-slice-bounds, C17-filter-first-only). A target that
+ends in a descent is no longer among them (repaired in /repo, ba8abfd: `Dev.cur.descentNoSelf`
+is off). -/
 def deviates (t : Target) : Bool :=
-  usesFromEnd t || usesSlice t || usesFilter t || endsInDescent t
+  usesFromEnd t || usesSlice t || usesFilter t
 
 theorem memOK_iff (m : UMem) : memOK m = !memFromEnd m := by
   cases m with
@@ -93,17 +91,11 @@ theorem okTarget_cur : ∀ (t : Target), okTarget Dev.cur t = !deviates t
   | f :: fs => by
     have ih := okTarget_cur fs
     have hf := fragOK_cur f
-    have hd : Dev.cur.descentNoSelf = true := rfl
-    simp only [okTarget, ih, hf, hd, Bool.true_and]
-    simp only [deviates, usesFromEnd, usesSlice, usesFilter, endsInDescent, List.any_cons]
-    cases fs with
-    | nil =>
-      cases fragFromEnd f <;> cases isSlice f <;> cases usesFilter.isFilter' f <;> cases isDescent f <;>
-        simp [endsInDescent]
-    | cons g gs =>
-      cases fragFromEnd f <;> cases isSlice f <;> cases usesFilter.isFilter' f <;>
-        cases (g :: gs).any fragFromEnd <;> cases (g :: gs).any isSlice <;>
-        cases (g :: gs).any usesFilter.isFilter' <;> cases endsInDescent (g :: gs) <;> simp
+    have hd : Dev.cur.descentNoSelf = false := rfl
+    simp only [okTarget, ih, hf, hd, Bool.false_and, Bool.not_false, Bool.and_true]
+    simp only [deviates, usesFromEnd, usesSlice, usesFilter, List.any_cons]
+    cases fragFromEnd f <;> cases isSlice f <;> cases usesFilter.isFilter' f <;>
+      cases fs.any fragFromEnd <;> cases fs.any isSlice <;> cases fs.any usesFilter.isFilter' <;> rfl
 
 /-! ## what is proved -/
 
@@ -132,15 +124,17 @@ theorem C17_general (dv : Dev) (targets : List Target) (doc : JV) (hdoc : NoDupK
     matchRun dv targets (events doc) = expected targets doc := by
   rw [run_events dv targets doc hdoc, found_expected dv targets doc hdoc hok]
 
-/-- C17 for the code as it is: every document, every set of targets none of which uses a
-from-the-end index, a slice, a filter or a trailing descent -/
+/-- C17 for the code as it is now (trailing descents repaired): every document, every set of
+targets none of which uses a from-the-end index or union member, a slice or a filter; targets
+ending in a descent (`$..`, `$.a..`) are covered. One deviating target puts the whole SET outside
+the theorem: while a container is collected for a filter target no other target is looked at. -/
 theorem C17_partial (targets : List Target) (doc : JV) (hdoc : NoDupKeys doc = true)
     (hdev : ∀ t ∈ targets, deviates t = false) :
     matchRun Dev.cur targets (events doc) = expected targets doc :=
   C17_general Dev.cur targets doc hdoc (fun t ht => by simp [okTarget_cur, hdev t ht])
 
-/-- with the proposed fixes (slice bounds, descent matches the node itself) the theorem also
-covers trailing descents and slices with bounds from the start and a forward step -/
+/-- with the remaining proposed fix of `PathMatch` (slice bounds) the theorem also covers slices
+with bounds from the start and a forward step -/
 theorem C17_fixed (targets : List Target) (doc : JV) (hdoc : NoDupKeys doc = true)
     (hok : ∀ t ∈ targets, okTarget Dev.fixed t = true) :
     matchRun Dev.fixed targets (events doc) = expected targets doc :=
@@ -169,15 +163,15 @@ theorem callbacks_once (dv : Dev) (targets : List Target) (doc : JV) (hdoc : NoD
 
 /-! non-trivial instances of the hypotheses -/
 
-/-- `$..a[*]['b',0][2]` and `$.a` -/
-example : ∀ t ∈ [[Frag.descent, .child [97], .wildcard, .union [.name [98], .index 0], .index 2], [.child [97]]],
-    deviates t = false := by decide
+/-- `$..a[*]['b',0][2]`, `$.a`, and the trailing descents `$..`, `$.a..` -/
+example : ∀ t ∈ [[Frag.descent, .child [97], .wildcard, .union [.name [98], .index 0], .index 2], [.child [97]],
+    [.descent], [.child [97], .descent]], deviates t = false := by decide
 
 /-- `{"a":[{"b":[0,1,2]},3],"c":null}` -/
 example : NoDupKeys (.obj [([97], .arr [.obj [([98], .arr [.int 0, .int 1, .int 2])], .int 3]), ([99], .null)]) = true := by
   decide
 
-/-- with the fixes: `$.a[1:5:2]` and `$.a..` -/
+/-- with the slice fix: `$.a[1:5:2]` (and `$.a..`) -/
 example : ∀ t ∈ [[Frag.child [97], .slice 1 (some 5) 2], [.child [97], .descent]], okTarget Dev.fixed t = true := by
   decide
 
@@ -207,10 +201,28 @@ theorem dev_slice :
       = [[.idx 0], [.idx 1], [.idx 2]] ∧
     (expected [[.slice 1 (some 2) 1]] (.arr [.int 0, .int 1, .int 2])).map (·.1) = [[.idx 1]] := by decide
 
-/-- C17-trailing-descent: `$..` on `[1]` — the element instead of the document -/
-theorem dev_trailing_descent :
-    (matchRun Dev.cur [[.descent]] (events (.arr [.int 1]))).map (·.1) = [[.idx 0]] ∧
+/-- C17-trailing-descent (FIXED in /repo, ba8abfd): before the fix (`descentNoSelf` on) `$..` on
+`[1]` reported the element instead of the document; the current matcher reports the document -/
+theorem dev_trailing_descent_before_fix :
+    (matchRun ⟨true, true, true⟩ [[.descent]] (events (.arr [.int 1]))).map (·.1) = [[.idx 0]] ∧
+    (matchRun Dev.cur [[.descent]] (events (.arr [.int 1]))).map (·.1) = [[]] ∧
     (expected [[.descent]] (.arr [.int 1])).map (·.1) = [[]] := by decide
+
+/-- the still-known deviations in front of a now-working descent: `$[-1]..` on `[1]` reports
+nothing (expected `$[0]`), `$[1:]..` on `[1]` reports `$[0]` (expected nothing) -/
+theorem dev_before_descent :
+    (matchRun Dev.cur [[.index (-1), .descent]] (events (.arr [.int 1]))).map (·.1) = [] ∧
+    (expected [[.index (-1), .descent]] (.arr [.int 1])).map (·.1) = [[.idx 0]] ∧
+    (matchRun Dev.cur [[.slice 1 none 1, .descent]] (events (.arr [.int 1]))).map (·.1) = [[.idx 0]] ∧
+    (expected [[.slice 1 none 1, .descent]] (.arr [.int 1])).map (·.1) = [] := by decide
+
+/-- a filter target spoils the whole set: with `$.[?(@ == 2)]` and `$..` on `[2]` the document is
+collected for the filter target and `$..` is not looked at (expected: the document) -/
+theorem dev_filter_masks_other_target :
+    (matchRun Dev.cur [[.descent, .filter fun v => match v with | .int 2 => true | _ => false], [.descent]]
+        (events (.arr [.int 2]))).map (·.1) = [[.idx 0]] ∧
+    (expected [[.descent, .filter fun v => match v with | .int 2 => true | _ => false], [.descent]]
+        (.arr [.int 2])).map (·.1) = [[]] := by decide
 
 /-- the filter `(@.x == 1)` on objects whose first member is `x` -/
 def xIs1 : JV → Bool
